@@ -4,7 +4,9 @@ CFG = {
     'model': 'c17',
     'ocaml_pkgs': 'zarith,coq-core.kernel',
     'ocaml_flags': '-rectypes -thread',
-    'axioms': [],
+    # kernel primitives of PrimFloat as `Print Assumptions` lists them for the one binary64 witness theorem
+    # (C17_length_all_inputs_refuted, evaluated by vm_compute); they are primitive operations, not logical axioms
+    'axioms': ['float', 'add', 'sub', 'mul', 'div', 'ltb', 'leb', 'eqb'],
     'uses_gen': False,
     'rule': 'TODO',
     'trusted': [],
